@@ -1,1 +1,696 @@
-// verification harness include for semaphore (see /verif/DESIGN.md)
+// Included at the end of /repo/src/sync/semaphore.rs under cfg(futures_intrusive_verif).
+// Semaphore harnesses (borrowed flavour): E-HIST interpreter through the public API
+// and E-STEP inductive step. Properties C05, C06, C07 (+ C01, C17 parts).
+
+pub(crate) mod verif_sem {
+    use super::*;
+    use crate::verif::common::*;
+    use core::mem::ManuallyDrop;
+
+    macro_rules! oracle {
+        ($p:expr, $mask:expr, $cond:expr, $msg:literal) => {
+            if ($p & $mask) != 0 {
+                assert!($cond, $msg);
+            }
+        };
+    }
+
+    pub const K: usize = 3;
+    pub const W_RELEASE_WAKES_HEAD: u32 = 1; // >= 2 pending, a release/releaser drop made the head fit and woke it
+    pub const W_CANCEL_HEAD: u32 = 2; // the pending head was cancelled while another request was pending behind it
+    pub const W_REQUEUE: u32 = 4; // a woken future found too few permits and went back to waiting (unfair)
+    pub const W_READY_AFTER_WAIT: u32 = 8;
+
+    /// Bounded history through the public API.
+    /// cfg: bits 0-1 fairness (0 unfair, 1 fair, 2 symbolic); bits 2-3 `pre` = number of leading
+    /// operations fixed to "poll slot k with waker A" (a partition of the script space);
+    /// bits 4-5 number of future slots in use (0 = all three).
+    /// Symmetry breaking (slots and the two wakers of a slot are interchangeable): slot i+1 is first
+    /// polled only after slot i was, and the first poll of a future uses waker A.
+    pub fn hist<M: RawMutex, S: Src>(s: &mut S, cfg: u32, n: usize, p: u32) -> u32 {
+        let fmode = cfg & 3;
+        let pre = ((cfg >> 2) & 3) as usize;
+        let kslots = if (cfg >> 4) & 3 == 0 { K } else { ((cfg >> 4) & 3) as usize };
+        let fair = if fmode == 2 { s.flag() } else { fmode == 1 };
+        let init = s.below(4) as usize;
+        let sem = GenericSemaphore::<M>::new(fair, init);
+        let (c0a, c0b, c1a, c1b, c2a, c2b) = (
+            WakeCell::new(), WakeCell::new(), WakeCell::new(),
+            WakeCell::new(), WakeCell::new(), WakeCell::new(),
+        );
+        let mut q = [s.below(4) as usize, s.below(4) as usize, s.below(4) as usize];
+        let mut f0 = ManuallyDrop::new(sem.acquire(q[0]));
+        let mut f1 = ManuallyDrop::new(sem.acquire(q[1]));
+        let mut f2 = ManuallyDrop::new(sem.acquire(q[2]));
+        // releasers owned by the harness: one per future slot + one for try_acquire
+        // (ManuallyDrop + ptr::read/write: exactly one real Releaser::drop call site in the formula)
+        let mut r0: ManuallyDrop<Option<GenericSemaphoreReleaser<'_, M>>> = ManuallyDrop::new(None);
+        let mut r1: ManuallyDrop<Option<GenericSemaphoreReleaser<'_, M>>> = ManuallyDrop::new(None);
+        let mut r2: ManuallyDrop<Option<GenericSemaphoreReleaser<'_, M>>> = ManuallyDrop::new(None);
+        let mut r3: ManuallyDrop<Option<GenericSemaphoreReleaser<'_, M>>> = ManuallyDrop::new(None);
+        let mut held = [0usize; 4]; // amount each live releaser will give back
+        let mut has = [false; 4];
+
+        let mut alive = [true; K];
+        let mut pending = [false; K];
+        let mut done = [false; K];
+        let mut lw = [0u8; K];
+        let mut snap = [0u32; K];
+        let mut stamp = [0u32; K];
+        let mut clock = 0u32;
+        let mut ever = [false; K]; // slot was polled at least once (symmetry breaking)
+        let mut fresh = [true; K]; // current future of the slot not polled yet
+        // reference ledger: permits() must equal it
+        let mut ledger: usize = init;
+        let mut bits = 0u32;
+
+        let mut step = 0;
+        while step < n && !s.exhausted() {
+            step += 1;
+            let op = if step <= pre { ((step - 1) * 2) as u8 } else { s.below(19) };
+            let mut was_release = false;
+            if op < 6 {
+                // ---- poll slot i with waker w ----
+                let i = (op / 2) as usize;
+                let w = op % 2;
+                s.assume(i < kslots && !done[i]);
+                s.assume(i == 0 || ever[i - 1]);
+                s.assume(!fresh[i] || w == 0);
+                ever[i] = true;
+                let f = match i { 0 => &mut f0, 1 => &mut f1, _ => &mut f2 };
+                if !alive[i] {
+                    s.assume(!has[i]); // its previous releaser was given back first (keeps the ledger small)
+                    q[i] = s.below(4) as usize;
+                    *f = ManuallyDrop::new(sem.acquire(q[i]));
+                    alive[i] = true;
+                    fresh[i] = true;
+                    oracle!(p, P17, !f.is_terminated(), "C17 semaphore: fresh acquire future reports terminated");
+                }
+                let cell = match (i, w) {
+                    (0, 0) => &c0a, (0, _) => &c0b,
+                    (1, 0) => &c1a, (1, _) => &c1b,
+                    (_, 0) => &c2a, (_, _) => &c2b,
+                };
+                let woken_before = pending[i] && {
+                    let lc = match (i, lw[i]) {
+                        (0, 0) => &c0a, (0, _) => &c0b,
+                        (1, 0) => &c1a, (1, _) => &c1b,
+                        (_, 0) => &c2a, (_, _) => &c2b,
+                    };
+                    lc.n() > snap[i]
+                };
+                let was_pending = pending[i];
+                fresh[i] = false;
+                let waker = ManuallyDrop::new(mk_waker(cell));
+                let mut cx = Context::from_waker(&waker);
+                let r = unsafe { Pin::new_unchecked(&mut **f) }.poll(&mut cx);
+                match r {
+                    Poll::Ready(rel) => {
+                        oracle!(p, P05, ledger >= q[i], "C05 semaphore: acquire future completed with fewer permits available than requested");
+                        if fair && q[i] > 0 {
+                            let mut j = 0;
+                            while j < K {
+                                if j != i && alive[j] && pending[j] {
+                                    oracle!(p, P07, was_pending && stamp[j] > stamp[i],
+                                        "C07 fair semaphore: a request completed ahead of an earlier pending request");
+                                }
+                                j += 1;
+                            }
+                        }
+                        if was_pending { bits |= W_READY_AFTER_WAIT; }
+                        ledger = ledger.wrapping_sub(q[i]);
+                        pending[i] = false;
+                        done[i] = true;
+                        has[i] = true;
+                        held[i] = q[i];
+                        let slot = match i { 0 => &mut r0, 1 => &mut r1, _ => &mut r2 };
+                        unsafe { core::ptr::write(&mut **slot, Some(rel)) };
+                    }
+                    Poll::Pending => {
+                        oracle!(p, P07, q[i] > 0, "C07 semaphore: a request for zero permits did not complete immediately");
+                        if !pending[i] {
+                            clock += 1;
+                            stamp[i] = clock;
+                        } else if woken_before && !fair {
+                            // woken, found too few permits, went back to waiting: its wait restarts
+                            clock += 1;
+                            stamp[i] = clock;
+                            bits |= W_REQUEUE;
+                        }
+                        pending[i] = true;
+                        lw[i] = w;
+                        snap[i] = cell.n();
+                    }
+                }
+            } else if op < 9 {
+                // ---- cancel (drop) future i ----
+                let i = (op - 6) as usize;
+                // (dropping a never-polled or completed future is covered by E-STEP; pruned here)
+                s.assume(i < kslots && alive[i] && pending[i]);
+                let f = match i { 0 => &mut f0, 1 => &mut f1, _ => &mut f2 };
+                if pending[i] {
+                    let mut older = false;
+                    let mut others = false;
+                    let mut j = 0;
+                    while j < K {
+                        if j != i && pending[j] { others = true; if stamp[j] < stamp[i] { older = true; } }
+                        j += 1;
+                    }
+                    if others && !older { bits |= W_CANCEL_HEAD; }
+                }
+                unsafe { ManuallyDrop::drop(f) };
+                alive[i] = false;
+                pending[i] = false;
+                done[i] = false;
+            } else if op < 13 {
+                // ---- drop releaser j ----
+                let j = (op - 9) as usize;
+                s.assume(has[j]);
+                let slot = match j { 0 => &mut r0, 1 => &mut r1, 2 => &mut r2, _ => &mut r3 };
+                let rel = unsafe { core::ptr::read(&**slot) };
+                unsafe { core::ptr::write(&mut **slot, None) };
+                match rel {
+                    Some(rel) => drop(rel), // the real Releaser::drop
+                    None => s.assume(false),
+                }
+                ledger += held[j];
+                has[j] = false;
+                held[j] = 0;
+                was_release = true;
+            } else if op < 17 {
+                // ---- disarm releaser j (it keeps existing and will give back nothing) ----
+                let j = (op - 13) as usize;
+                s.assume(has[j] && (p & P05) != 0); // disarm only matters for the ledger (C05)
+                let slot = match j { 0 => &mut r0, 1 => &mut r1, 2 => &mut r2, _ => &mut r3 };
+                let got = match (**slot).as_mut() {
+                    Some(rel) => rel.disarm(),
+                    None => { s.assume(false); 0 }
+                };
+                oracle!(p, P05, got == held[j], "C05 semaphore: disarm() did not return the amount the releaser held");
+                held[j] = 0;
+            } else if op == 17 {
+                let a = s.below(4) as usize;
+                s.assume(a > 0);
+                sem.release(a);
+                ledger += a;
+                was_release = true;
+            } else {
+                let a = s.below(4) as usize;
+                s.assume(!has[3]);
+                let any_pending = pending[0] || pending[1] || pending[2];
+                match sem.try_acquire(a) {
+                    Some(rel) => {
+                        oracle!(p, P05, ledger >= a, "C05 semaphore: try_acquire succeeded with fewer permits available than requested");
+                        if fair && a > 0 {
+                            oracle!(p, P07, !any_pending, "C07 fair semaphore: try_acquire overtook a pending request");
+                        }
+                        ledger = ledger.wrapping_sub(a);
+                        has[3] = true;
+                        held[3] = a;
+                        unsafe { core::ptr::write(&mut *r3, Some(rel)) };
+                    }
+                    None => {
+                        oracle!(p, P07, a > 0, "C07 semaphore: try_acquire(0) failed");
+                    }
+                }
+            }
+
+            // ================= oracles after every operation =================
+            oracle!(p, P05, sem.permits() == ledger, "C05 semaphore: permits() differs from initial + released - outstanding");
+            let wk0 = pending[0] && (if lw[0] == 0 { c0a.n() } else { c0b.n() }) > snap[0];
+            let wk1 = pending[1] && (if lw[1] == 0 { c1a.n() } else { c1b.n() }) > snap[1];
+            let wk2 = pending[2] && (if lw[2] == 0 { c2a.n() } else { c2b.n() }) > snap[2];
+            if pending[0] || pending[1] || pending[2] {
+                let mut h = K;
+                let mut j = 0;
+                while j < K {
+                    if pending[j] && (h == K || stamp[j] < stamp[h]) { h = j; }
+                    j += 1;
+                }
+                if !(wk0 || wk1 || wk2) {
+                    oracle!(p, P06, h < K && q[h] > sem.permits(),
+                        "C06 semaphore: the longest-waiting request fits into the available permits but no pending future holds a wake-up");
+                }
+                let np = pending[0] as u8 + pending[1] as u8 + pending[2] as u8;
+                if was_release && np >= 2 && h < K && [wk0, wk1, wk2][h] { bits |= W_RELEASE_WAKES_HEAD; }
+            }
+            if (p & P17) != 0 {
+                if alive[0] { assert!(f0.is_terminated() == done[0], "C17 semaphore: is_terminated() differs from 'completed'"); }
+                if alive[1] { assert!(f1.is_terminated() == done[1], "C17 semaphore: is_terminated() differs from 'completed'"); }
+                if alive[2] { assert!(f2.is_terminated() == done[2], "C17 semaphore: is_terminated() differs from 'completed'"); }
+            }
+        }
+        s.reached(bits);
+        bits
+    }
+
+    #[no_mangle]
+    pub fn fi_verif_replay_sem(name: &str, cfg: u32, p: u32, s: &mut ScriptSrc<'_>) -> bool {
+        match name {
+            "sem_hist_noop" => { hist::<NoopLock, _>(s, cfg, 64, p); }
+            "sem_hist_check" => { hist::<CheckLock, _>(s, cfg, 64, p); }
+            _ => return false,
+        }
+        true
+    }
+
+    // =====================================================================
+    // E-STEP: one real operation from an arbitrary state satisfying Inv_sem.
+    // Invariant parts and their owners:
+    //   S1,S2 (queue membership; waiting => stored waker = latest)        -> C01
+    //   L1    (every operation changes permits by exactly its amount)     -> C05
+    //   S4    (pending & nobody notified => head request > permits),
+    //         notified => woken through the latest waker                  -> C06
+    //   S0,S3,R6 (zero requests never wait; fair: only the oldest member is
+    //         notified and its permits are reserved; queue = arrival order) -> C07
+    // =====================================================================
+    #[cfg(kani)]
+    pub mod step {
+        use super::*;
+        type Node = ListNode<WaitQueueEntry>;
+
+        // 0 New, 1 Waiting, 2 Notified, 3 Done
+        fn any_st() -> u8 { let x: u8 = kani::any(); kani::assume(x < 4); x }
+        fn obs<M: RawMutex>(f: &GenericSemaphoreAcquireFuture<'_, M>) -> u8 {
+            match f.wait_node.state { PollState::New => 0, PollState::Waiting => 1, PollState::Notified => 2, PollState::Done => 3 }
+        }
+
+        /// class: 0 poll, 1 drop future, 2 release / releaser drop, 3 try_acquire, 4 any
+        pub fn run<M: RawMutex>(fair_cfg: u8, class: u8, amax: usize, p: u32) -> u32 {
+            let fair: bool = if fair_cfg == 2 { kani::any() } else { fair_cfg == 1 };
+            let permits: usize = kani::any();
+            kani::assume(permits <= amax);
+            let sem = GenericSemaphore::<M>::new(fair, permits);
+            let (c0a, c0b, c1a, c1b, c2a, c2b) = (
+                WakeCell::new(), WakeCell::new(), WakeCell::new(),
+                WakeCell::new(), WakeCell::new(), WakeCell::new(),
+            );
+            let q: [usize; 3] = [kani::any(), kani::any(), kani::any()];
+            kani::assume(q[0] <= amax && q[1] <= amax && q[2] <= amax);
+            let mut f0 = ManuallyDrop::new(sem.acquire(q[0]));
+            let mut f1 = ManuallyDrop::new(sem.acquire(q[1]));
+            let mut f2 = ManuallyDrop::new(sem.acquire(q[2]));
+            let st = [any_st(), any_st(), any_st()];
+            let lw: [bool; 3] = [kani::any(), kani::any(), kani::any()];
+            let r: [u8; 3] = [kani::any(), kani::any(), kani::any()]; // wait-order rank, 0 = oldest
+            kani::assume(r[0] < 3 && r[1] < 3 && r[2] < 3 && r[0] != r[1] && r[1] != r[2] && r[0] != r[2]);
+            let linked = |x: u8| x == 1 || (fair && x == 2);
+            let pend = |x: u8| x == 1 || x == 2;
+            let lk = [linked(st[0]), linked(st[1]), linked(st[2])];
+            // ---- Inv (assumed) ----
+            let mut i = 0;
+            while i < 3 {
+                if pend(st[i]) { kani::assume(q[i] > 0); } // S0
+                if fair && st[i] == 2 {
+                    // S3: only the oldest member may be notified, and its permits are reserved
+                    let mut j = 0;
+                    while j < 3 {
+                        if j != i && lk[j] { kani::assume(r[j] > r[i]); }
+                        j += 1;
+                    }
+                    kani::assume(permits >= q[i]);
+                }
+                i += 1;
+            }
+            let any_pend = pend(st[0]) || pend(st[1]) || pend(st[2]);
+            let any_not = st[0] == 2 || st[1] == 2 || st[2] == 2;
+            if any_pend && !any_not {
+                // S4
+                let mut h = 3;
+                i = 0;
+                while i < 3 { if pend(st[i]) && (h == 3 || r[i] < r[h]) { h = i; } i += 1; }
+                kani::assume(q[h] > permits);
+            }
+            if !fair {
+                // S5 (unfair): the oldest waiter that is still queued does not fit into what is left after
+                // the already notified (dequeued) futures take their share - the wake-up loop only stops there.
+                let mut sum = 0usize;
+                let mut h = 3;
+                i = 0;
+                while i < 3 {
+                    if st[i] == 2 { sum = sum.saturating_add(q[i]); }
+                    if st[i] == 1 && (h == 3 || r[i] < r[h]) { h = i; }
+                    i += 1;
+                }
+                if h < 3 { kani::assume(q[h].saturating_add(sum) > permits); }
+            }
+            macro_rules! setup {
+                ($f:ident, $i:expr, $ca:expr, $cb:expr) => {
+                    match st[$i] {
+                        0 => {}
+                        1 => { $f.wait_node.state = PollState::Waiting; $f.wait_node.task = Some(if lw[$i] { mk_waker(&$ca) } else { mk_waker(&$cb) }); }
+                        2 => { $f.wait_node.state = PollState::Notified; $f.wait_node.task = Some(if lw[$i] { mk_waker(&$ca) } else { mk_waker(&$cb) }); }
+                        _ => { $f.wait_node.state = PollState::Done; $f.semaphore = None; }
+                    }
+                };
+            }
+            setup!(f0, 0, c0a, c0b);
+            setup!(f1, 1, c1a, c1b);
+            setup!(f2, 2, c2a, c2b);
+            {
+                let mut g = sem.state.lock();
+                let mut k = 0u8;
+                while k < 3 {
+                    unsafe {
+                        if lk[0] && r[0] == k { g.waiters.add_front(&mut f0.wait_node); }
+                        if lk[1] && r[1] == k { g.waiters.add_front(&mut f1.wait_node); }
+                        if lk[2] && r[2] == k { g.waiters.add_front(&mut f2.wait_node); }
+                    }
+                    k += 1;
+                }
+            }
+            let mut alive = [true; 3];
+            let mut polled = 3usize;
+            let mut polled_w = false;
+            let mut snap = 0u32;
+            let mut requeued = 3usize; // newly waiting or re-queued after a failed notified poll: youngest now
+            let mut granted: Option<usize> = None; // amount granted in this step
+            let mut expected: usize = permits; // L1
+
+            // ---- one real operation ----
+            let t: usize = kani::any();
+            kani::assume(t < 3);
+            let cls: u8 = if class == 4 { kani::any() } else { class };
+            kani::assume(cls < 4);
+            let amount: usize = kani::any();
+            kani::assume(amount <= amax);
+            if cls == 0 {
+                let f = match t { 0 => &mut f0, 1 => &mut f1, _ => &mut f2 };
+                kani::assume(st[t] != 3);
+                let wa: bool = kani::any();
+                let cell = match (t, wa) {
+                    (0, true) => &c0a, (0, false) => &c0b,
+                    (1, true) => &c1a, (1, false) => &c1b,
+                    (_, true) => &c2a, (_, false) => &c2b,
+                };
+                let w = ManuallyDrop::new(mk_waker(cell));
+                let mut cx = Context::from_waker(&w);
+                let res = unsafe { Pin::new_unchecked(&mut **f) }.poll(&mut cx);
+                polled = t;
+                polled_w = wa;
+                snap = cell.n();
+                match res {
+                    Poll::Ready(rel) => {
+                        oracle!(p, P05, rel.permits == q[t], "C05 semaphore step: releaser does not hold the granted amount");
+                        core::mem::forget(rel);
+                        granted = Some(q[t]);
+                        expected = permits.wrapping_sub(q[t]);
+                    }
+                    Poll::Pending => {
+                        if st[t] == 0 || st[t] == 2 { requeued = t; }
+                    }
+                }
+            } else if cls == 1 {
+                let f = match t { 0 => &mut f0, 1 => &mut f1, _ => &mut f2 };
+                unsafe { ManuallyDrop::drop(f) };
+                alive[t] = false;
+            } else if cls == 2 {
+                let via_releaser: bool = kani::any();
+                if via_releaser {
+                    drop(GenericSemaphoreReleaser::<'_, M> { semaphore: &sem, permits: amount });
+                } else {
+                    sem.release(amount);
+                }
+                expected = permits + amount;
+            } else {
+                if let Some(rel) = sem.try_acquire(amount) {
+                    oracle!(p, P05, rel.permits == amount, "C05 semaphore step: try_acquire releaser does not hold the granted amount");
+                    core::mem::forget(rel);
+                    granted = Some(amount);
+                    expected = permits.wrapping_sub(amount);
+                } else {
+                    oracle!(p, P07, amount > 0, "C07 semaphore step: try_acquire(0) failed");
+                }
+            }
+
+            // ---- post-state ----
+            let p2 = sem.permits();
+            let t2 = [obs(&f0), obs(&f1), obs(&f2)];
+            let pd2 = [alive[0] && pend(t2[0]), alive[1] && pend(t2[1]), alive[2] && pend(t2[2])];
+            let cells_a = [&c0a, &c1a, &c2a];
+            let cells_b = [&c0b, &c1b, &c2b];
+
+            // C05 / L1
+            oracle!(p, P05, p2 == expected, "C05 semaphore step: permits changed by something else than the operation's amount");
+            if let Some(g) = granted {
+                oracle!(p, P05, permits >= g, "C05 semaphore step: a request completed with fewer permits available than requested");
+            }
+
+            // C06: notified => woken through the latest waker; S4
+            i = 0;
+            while i < 3 {
+                if alive[i] && t2[i] == 2 && st[i] != 2 {
+                    let c = if i == polled { if polled_w { cells_a[i] } else { cells_b[i] } }
+                            else if lw[i] { cells_a[i] } else { cells_b[i] };
+                    let base = if i == polled { snap } else { 0 };
+                    oracle!(p, P06, c.n() > base, "C06 semaphore step: future notified but not woken through its latest waker");
+                }
+                i += 1;
+            }
+            let eff = |i: usize| -> u8 { if i == requeued { 10 } else { r[i] } };
+            let any_not2 = (pd2[0] && t2[0] == 2) || (pd2[1] && t2[1] == 2) || (pd2[2] && t2[2] == 2);
+            if (pd2[0] || pd2[1] || pd2[2]) && !any_not2 {
+                let mut h = 3;
+                i = 0;
+                while i < 3 { if pd2[i] && (h == 3 || eff(i) < eff(h)) { h = i; } i += 1; }
+                oracle!(p, P06, q[h] > p2, "C06 semaphore step: the longest-waiting request fits but no pending future holds a wake-up");
+            }
+
+            if !fair {
+                // S5'
+                let mut sum = 0usize;
+                let mut h = 3;
+                i = 0;
+                while i < 3 {
+                    if pd2[i] && t2[i] == 2 { sum = sum.saturating_add(q[i]); }
+                    if pd2[i] && t2[i] == 1 && (h == 3 || eff(i) < eff(h)) { h = i; }
+                    i += 1;
+                }
+                if h < 3 {
+                    oracle!(p, P06, q[h].saturating_add(sum) > p2,
+                        "C06 semaphore step: the oldest queued request fits into the permits not claimed by notified futures, but was not notified");
+                }
+            }
+
+            // C07 / S0, S3, order
+            i = 0;
+            while i < 3 {
+                if pd2[i] { oracle!(p, P07, q[i] > 0, "C07 semaphore step: a request for zero permits is waiting"); }
+                i += 1;
+            }
+            if fair {
+                if let Some(g) = granted {
+                    if g > 0 {
+                        i = 0;
+                        while i < 3 {
+                            if i != polled && pend(st[i]) {
+                                oracle!(p, P07, polled < 3 && pend(st[polled]) && r[i] > r[polled],
+                                    "C07 fair semaphore step: a request completed ahead of an earlier pending request");
+                            }
+                            i += 1;
+                        }
+                    }
+                }
+                i = 0;
+                while i < 3 {
+                    if pd2[i] && t2[i] == 2 {
+                        oracle!(p, P07, p2 >= q[i], "C07 fair semaphore step: notified head without reserved permits");
+                        let mut j = 0;
+                        while j < 3 {
+                            if j != i && pd2[j] {
+                                oracle!(p, P07, eff(j) > eff(i), "C07 fair semaphore step: notified future is not the longest-waiting one");
+                            }
+                            j += 1;
+                        }
+                    }
+                    i += 1;
+                }
+            }
+
+            // C01 / S1, S2 (+ fair: queue order = arrival order, owned by C07)
+            if (p & (P01 | P07)) != 0 {
+                let g = sem.state.lock();
+                let nodes: [*const Node; 3] = [&f0.wait_node, &f1.wait_node, &f2.wait_node];
+                let len = g.waiters.verif_len_checked(3);
+                if (p & P01) != 0 { assert!(len.is_some(), "C01 semaphore step: wait queue links are inconsistent"); }
+                let mut cnt = 0usize;
+                let mut pos = [None, None, None];
+                i = 0;
+                while i < 3 {
+                    let should = alive[i] && linked(t2[i]);
+                    pos[i] = g.waiters.verif_pos_from_tail(nodes[i], 3);
+                    if (p & P01) != 0 {
+                        assert!(pos[i].is_some() == should, "C01 semaphore step: wait queue membership differs from {alive and waiting}");
+                        if !should {
+                            let nd = unsafe { &*nodes[i] };
+                            assert!(nd.verif_unlinked(), "C01 semaphore step: a future outside the queue still carries links");
+                        }
+                    }
+                    if should { cnt += 1; }
+                    i += 1;
+                }
+                if (p & P01) != 0 {
+                    assert!(len == Some(cnt), "C01 semaphore step: wait queue holds a node that is not a live waiting future");
+                    i = 0;
+                    while i < 3 {
+                        if alive[i] && t2[i] == 1 {
+                            let nd = unsafe { &*nodes[i] };
+                            let lwc: &WakeCell = if i == polled { if polled_w { cells_a[i] } else { cells_b[i] } }
+                                                 else if lw[i] { cells_a[i] } else { cells_b[i] };
+                            let ok = match &nd.task { Some(w) => w.will_wake(&ManuallyDrop::new(mk_waker(lwc))), None => false };
+                            assert!(ok, "C01 semaphore step: waiting future does not store the waker of its latest poll");
+                        }
+                        i += 1;
+                    }
+                }
+                if fair && (p & P07) != 0 {
+                    i = 0;
+                    while i < 3 {
+                        let mut j = 0;
+                        while j < 3 {
+                            if let (Some(a), Some(b)) = (pos[i], pos[j]) {
+                                if i != j && eff(i) < eff(j) {
+                                    assert!(a < b, "C07 fair semaphore step: queue order differs from arrival order");
+                                }
+                            }
+                            j += 1;
+                        }
+                        i += 1;
+                    }
+                }
+            }
+            if (p & P17) != 0 {
+                if alive[0] { assert!(f0.is_terminated() == (t2[0] == 3), "C17 semaphore step: is_terminated() differs from 'completed'"); }
+                if alive[1] { assert!(f1.is_terminated() == (t2[1] == 3), "C17 semaphore step: is_terminated() differs from 'completed'"); }
+                if alive[2] { assert!(f2.is_terminated() == (t2[2] == 3), "C17 semaphore step: is_terminated() differs from 'completed'"); }
+                if granted.is_some() && polled < 3 { assert!(t2[polled] == 3, "C17 semaphore step: completed future not marked done"); }
+            }
+            let mut wb = 0u32;
+            if cls == 1 && st[t] == 1 && (pd2[0] || pd2[1] || pd2[2]) { wb |= 1; } // waiting future cancelled with others pending
+            if cls == 0 && st[t] == 2 && granted.is_none() { wb |= 2; } // notified future goes back to waiting
+            if cls == 2 && any_not2 && !any_not { wb |= 4; } // release notifies a waiter
+            if cls == 3 && granted.is_some() && any_pend { wb |= 8; } // try_acquire succeeds while requests are pending
+            wb
+        }
+
+        pub fn base<M: RawMutex>() {
+            let fair: bool = kani::any();
+            let n: usize = kani::any();
+            let sem = GenericSemaphore::<M>::new(fair, n);
+            let f0 = ManuallyDrop::new(sem.acquire(kani::any()));
+            assert!(sem.permits() == n, "C05 semaphore base: fresh semaphore does not hold the initial permits");
+            assert!(obs(&f0) == 0 && f0.wait_node.verif_unlinked() && f0.wait_node.task.is_none(),
+                "C01 semaphore base: fresh future is not New/unlinked");
+            assert!(!f0.is_terminated(), "C17 semaphore base: fresh future reports terminated");
+            let g = sem.state.lock();
+            assert!(g.waiters.verif_len_checked(1) == Some(0), "C01 semaphore base: fresh semaphore has a non-empty queue");
+        }
+    }
+
+    #[cfg(kani)]
+    mod proofs {
+        use super::*;
+
+        macro_rules! hist_proof {
+            ($name:ident, $lock:ty, $n:expr, $p:expr, $cfg:expr, $unw:expr) => {
+                #[kani::proof]
+                #[kani::unwind($unw)]
+                fn $name() {
+                    let bits = hist::<$lock, _>(&mut KaniSrc, $cfg, $n, $p);
+                    kani::cover!(bits & W_RELEASE_WAKES_HEAD != 0, "W release wakes head");
+                    kani::cover!(bits & W_CANCEL_HEAD != 0, "W head cancelled with a waiter behind");
+                }
+            };
+        }
+        hist_proof!(hist_c05_x_p0_n3, NoopLock, 3, P05, 2 | (0 << 2), 4);
+        hist_proof!(hist_c05_x_p0_n4, NoopLock, 4, P05, 2 | (0 << 2), 5);
+        hist_proof!(hist_c05_x_p2_n5, NoopLock, 5, P05, 2 | (2 << 2), 6);
+        hist_proof!(hist_c05_x_p0_n5, NoopLock, 5, P05, 2 | (0 << 2), 6);
+        hist_proof!(hist_c05_x_p2_n6, NoopLock, 6, P05, 2 | (2 << 2), 7);
+        hist_proof!(hist_c05_x_p3_n6, NoopLock, 6, P05, 2 | (3 << 2), 7);
+        hist_proof!(hist_c05_x_p3_n7, NoopLock, 7, P05, 2 | (3 << 2), 8);
+        hist_proof!(hist_c05_x_p2_n5_check, CheckLock, 5, P05, 2 | (2 << 2), 6);
+        hist_proof!(hist_c06_u_p0_n3, NoopLock, 3, P06, 0 | (0 << 2), 4);
+        hist_proof!(hist_c06_u_p0_n4, NoopLock, 4, P06, 0 | (0 << 2), 5);
+        hist_proof!(hist_c06_u_p2_n5, NoopLock, 5, P06, 0 | (2 << 2), 6);
+        hist_proof!(hist_c06_u_p0_n5, NoopLock, 5, P06, 0 | (0 << 2), 6);
+        hist_proof!(hist_c06_u_p2_n6, NoopLock, 6, P06, 0 | (2 << 2), 7);
+        hist_proof!(hist_c06_u_p3_n6, NoopLock, 6, P06, 0 | (3 << 2), 7);
+        hist_proof!(hist_c06_u_p3_n7, NoopLock, 7, P06, 0 | (3 << 2), 8);
+        hist_proof!(hist_c06_u_p2_n5_check, CheckLock, 5, P06, 0 | (2 << 2), 6);
+        hist_proof!(hist_c06_f_p0_n3, NoopLock, 3, P06, 1 | (0 << 2), 4);
+        hist_proof!(hist_c06_f_p0_n4, NoopLock, 4, P06, 1 | (0 << 2), 5);
+        hist_proof!(hist_c06_f_p2_n5, NoopLock, 5, P06, 1 | (2 << 2), 6);
+        hist_proof!(hist_c06_f_p0_n5, NoopLock, 5, P06, 1 | (0 << 2), 6);
+        hist_proof!(hist_c06_f_p2_n6, NoopLock, 6, P06, 1 | (2 << 2), 7);
+        hist_proof!(hist_c06_f_p3_n6, NoopLock, 6, P06, 1 | (3 << 2), 7);
+        hist_proof!(hist_c06_f_p3_n7, NoopLock, 7, P06, 1 | (3 << 2), 8);
+        hist_proof!(hist_c06_f_p2_n5_check, CheckLock, 5, P06, 1 | (2 << 2), 6);
+        hist_proof!(hist_c07_f_p0_n3, NoopLock, 3, P07, 1 | (0 << 2), 4);
+        hist_proof!(hist_c07_f_p0_n4, NoopLock, 4, P07, 1 | (0 << 2), 5);
+        hist_proof!(hist_c07_f_p2_n5, NoopLock, 5, P07, 1 | (2 << 2), 6);
+        hist_proof!(hist_c07_f_p0_n5, NoopLock, 5, P07, 1 | (0 << 2), 6);
+        hist_proof!(hist_c07_f_p2_n6, NoopLock, 6, P07, 1 | (2 << 2), 7);
+        hist_proof!(hist_c07_f_p3_n6, NoopLock, 6, P07, 1 | (3 << 2), 7);
+        hist_proof!(hist_c07_f_p3_n7, NoopLock, 7, P07, 1 | (3 << 2), 8);
+        hist_proof!(hist_c07_f_p2_n5_check, CheckLock, 5, P07, 1 | (2 << 2), 6);
+        hist_proof!(hist_c17_x_p0_n3, NoopLock, 3, P17, 2 | (0 << 2), 4);
+        hist_proof!(hist_c17_x_p0_n4, NoopLock, 4, P17, 2 | (0 << 2), 5);
+        hist_proof!(hist_c17_x_p2_n5, NoopLock, 5, P17, 2 | (2 << 2), 6);
+        hist_proof!(hist_c17_x_p0_n5, NoopLock, 5, P17, 2 | (0 << 2), 6);
+        hist_proof!(hist_c17_x_p2_n6, NoopLock, 6, P17, 2 | (2 << 2), 7);
+        hist_proof!(hist_c17_x_p3_n6, NoopLock, 6, P17, 2 | (3 << 2), 7);
+        hist_proof!(hist_c17_x_p3_n7, NoopLock, 7, P17, 2 | (3 << 2), 8);
+        hist_proof!(hist_c17_x_p2_n5_check, CheckLock, 5, P17, 2 | (2 << 2), 6);
+        hist_proof!(hist_c01_x_p0_n3, NoopLock, 3, P01, 2 | (0 << 2), 4);
+        hist_proof!(hist_c01_x_p0_n4, NoopLock, 4, P01, 2 | (0 << 2), 5);
+        hist_proof!(hist_c01_x_p2_n5, NoopLock, 5, P01, 2 | (2 << 2), 6);
+        hist_proof!(hist_c01_x_p0_n5, NoopLock, 5, P01, 2 | (0 << 2), 6);
+        hist_proof!(hist_c01_x_p2_n6, NoopLock, 6, P01, 2 | (2 << 2), 7);
+        hist_proof!(hist_c01_x_p3_n6, NoopLock, 6, P01, 2 | (3 << 2), 7);
+        hist_proof!(hist_c01_x_p3_n7, NoopLock, 7, P01, 2 | (3 << 2), 8);
+        hist_proof!(hist_c01_x_p2_n5_check, CheckLock, 5, P01, 2 | (2 << 2), 6);
+
+        macro_rules! step_proof {
+            ($name:ident, $lock:ty, $fair:expr, $class:expr, $amax:expr, $p:expr) => {
+                #[kani::proof]
+                #[kani::unwind(6)]
+                fn $name() {
+                    let wb = step::run::<$lock>($fair, $class, $amax, $p);
+                    // reachability witness of the class under test (4 = all classes)
+                    let want: u32 = match $class { 0 => 2, 1 => 1, 2 => 4, 3 => 8, _ => 1 };
+                    kani::cover!(wb & want != 0, "W step: class-specific interesting transition reached");
+                }
+            };
+        }
+        step_proof!(step_c01, NoopLock, 2, 4, 3, P01);
+        step_proof!(step_c01_check, CheckLock, 2, 4, 3, P01);
+        step_proof!(step_c05, NoopLock, 2, 4, 3, P05);
+        step_proof!(step_c05_wide, NoopLock, 2, 4, 1usize << 62, P05);
+        step_proof!(step_c06, NoopLock, 2, 4, 3, P06);
+        step_proof!(step_c06_poll, NoopLock, 2, 0, 3, P06);
+        step_proof!(step_c06_drop, NoopLock, 2, 1, 3, P06);
+        step_proof!(step_c06_release, NoopLock, 2, 2, 3, P06);
+        step_proof!(step_c06_try, NoopLock, 2, 3, 3, P06);
+        step_proof!(step_c07, NoopLock, 1, 4, 3, P07);
+        step_proof!(step_c17, NoopLock, 2, 4, 3, P17);
+        #[kani::proof]
+        #[kani::unwind(6)]
+        fn step_base() {
+            step::base::<NoopLock>();
+        }
+
+        #[kani::proof]
+        #[kani::unwind(5)]
+        fn witness_release_p2_n4() {
+            let bits = hist::<NoopLock, _>(&mut KaniSrc, 2 | (2 << 2), 4, 0);
+            assert!(bits & W_RELEASE_WAKES_HEAD == 0, "WITNESS reached");
+        }
+        #[kani::proof]
+        #[kani::unwind(5)]
+        fn witness_cancel_head_p2_n4() {
+            let bits = hist::<NoopLock, _>(&mut KaniSrc, 2 | (2 << 2), 4, 0);
+            assert!(bits & W_CANCEL_HEAD == 0, "WITNESS reached");
+        }
+    }
+}
